@@ -21,12 +21,12 @@ Local Open Scope N_scope.
     [route_in t x]: x is an element of some bucket of table t.
     [contains p ad]: same family and the same leading [p_len p] bits
     (lemma C08_contains_meaning). *)
-Theorem C08_longest_prefix_lowest_metric : forall (local : N) (ops : list op) (is16 a : N),
-  let m := run local ops in
+Theorem C08_longest_prefix_lowest_metric : forall (local : N) (srt : sorter), sorter_ok srt -> forall (ops : list op) (is16 a : N),
+  let m := run local srt ops in
   match addr_norm is16 a with
-  | None => snd (step local m (OLookup is16 a)) = FNone
+  | None => snd (step local srt m (OLookup is16 a)) = FNone
   | Some ad =>
-      match snd (step local m (OLookup is16 a)) with
+      match snd (step local srt m (OLookup is16 a)) with
       | FNone => forall x, route_in (m_cidr m) x -> contains (e_data x) ad = false
       | FCidr r =>
           route_in (m_cidr m) r /\ contains (e_data r) ad = true /\
@@ -42,17 +42,17 @@ Print Assumptions C08_longest_prefix_lowest_metric.
 (** The Go code ranges over a map, whose iteration order is unspecified; the
     model scans an association list. For every reachable table the result is
     the same for every order of the buckets. *)
-Theorem C08_independent_of_map_order : forall (local : N) (ops : list op) (t' : ctable) (ad : addr),
-  Permutation (m_cidr (run local ops)) t' ->
-  cidr_lookup t' ad = cidr_lookup (m_cidr (run local ops)) ad.
+Theorem C08_independent_of_map_order : forall (local : N) (srt : sorter), sorter_ok srt -> forall (ops : list op) (t' : ctable) (ad : addr),
+  Permutation (m_cidr (run local srt ops)) t' ->
+  cidr_lookup t' ad = cidr_lookup (m_cidr (run local srt ops)) ad.
 Proof. exact lookup_order_independent_hist. Qed.
 Print Assumptions C08_independent_of_map_order.
 
 (** Every stored network is canonical (host bits zero, family 4 or 6, length
     within the family's width): prefix lengths of stored routes are comparable
     and each network has exactly one table key. *)
-Theorem C08_stored_networks_canonical : forall (local : N) (ops : list op) x,
-  route_in (m_cidr (run local ops)) x ->
+Theorem C08_stored_networks_canonical : forall (local : N) (srt : sorter), sorter_ok srt -> forall (ops : list op) x,
+  route_in (m_cidr (run local srt ops)) x ->
   p_ip (e_data x) = mask_ip (p_fam (e_data x)) (p_ip (e_data x)) (p_len (e_data x)) /\
   (p_fam (e_data x) = 4 \/ p_fam (e_data x) = 6) /\
   p_len (e_data x) <= fbits (p_fam (e_data x)).
@@ -95,15 +95,15 @@ Print Assumptions C08_refuted_pre_fix_mapped_prefix.
     Both spellings of 10.0.0.0/8 share one bucket and the metric-2 route is
     found; 10.1.2.3 is matched by the /16; an IPv6 address finds nothing. *)
 Example C08_witness1_repaired :
-  option_map (fun r => (e_data r, e_metric r)) (cidr_lookup (m_cidr (run 0 w_ops1)) w_addr)
+  option_map (fun r => (e_data r, e_metric r)) (cidr_lookup (m_cidr (run 0 (@isort) w_ops1)) w_addr)
     = Some (mkP 4 167772160 8, 2) /\
-  length (m_cidr (run 0 w_ops1)) = 1%nat.
+  length (m_cidr (run 0 (@isort) w_ops1)) = 1%nat.
 Proof. exact fixed_witness1. Qed.
 
 Example C08_witness2_repaired :
-  option_map (fun r => (e_data r, e_metric r)) (cidr_lookup (m_cidr (run 0 w_ops2)) w_addr2)
+  option_map (fun r => (e_data r, e_metric r)) (cidr_lookup (m_cidr (run 0 (@isort) w_ops2)) w_addr2)
     = Some (mkP 4 167837696 16, 2) /\
-  cidr_lookup (m_cidr (run 0 w_ops2)) (6, 1) = None.
+  cidr_lookup (m_cidr (run 0 (@isort) w_ops2)) (6, 1) = None.
 Proof. exact fixed_witness2. Qed.
 
 (** The facts regenerated from internal/routing/table.go on this run are the
@@ -120,3 +120,17 @@ Theorem C08_source_facts :
   gen_removeroute_uses_canonical_key = true.
 Proof. repeat split; reflexivity. Qed.
 Print Assumptions C08_source_facts.
+
+(** The hypothesis on the sorting function: it returns a metric-sorted
+    permutation of its argument. Go's sort.Slice with the less function
+    "routes[i].Metric < routes[j].Metric" is such a function (stable or not);
+    the stable insertion sort that sort.Slice is for up to 12 elements, which
+    the correspondence check runs, satisfies it. *)
+Theorem C08_sorter_hypothesis_meaning : forall srt : sorter,
+  sorter_ok srt <->
+  forall (D : Type) (l : list (entry D)),
+    Permutation (srt D l) l /\ Sorted.StronglySorted (fun x y => e_metric x <= e_metric y) (srt D l).
+Proof. exact sorter_ok_meaning. Qed.
+
+Example C08_sorter_hypothesis_satisfiable : sorter_ok (@isort).
+Proof. exact isort_ok. Qed.
